@@ -7,7 +7,24 @@
 using namespace iora::network;
 static std::string lower(std::string s) { for (auto &c : s) if (c >= 'A' && c <= 'Z') c = (char)(c + 32); return s; }
 static std::string trim(const std::string &s) { size_t a = s.find_first_not_of(" \t"); if (a == std::string::npos) return ""; size_t b = s.find_last_not_of(" \t"); return s.substr(a, b - a + 1); }
+// frameResponse, segmentation independence: the response stream STREAM is fed to the REAL frameResponse the way executeRequest does (append a read, call,
+// stop when complete) once in ONE read and once cut at CUT; both runs must agree on completion and body, and a complete stream must be framed.
+struct FrRun { bool done = false, threw = false; std::string body; };
+static FrRun fr_run(HttpClient &c, const std::string &s, const std::vector<size_t> &cuts) {
+  FrRun r; std::string data; bool headersDone = false, forceEvict = false; size_t headerScanPos = 0, bodyStart = 0; HttpClient::Response resp; HttpClient::Framing framing; HttpClient::ChunkState cs;
+  size_t prev = 0;
+  for (size_t k = 0; k <= cuts.size() && !r.done; k++) { size_t e = k < cuts.size() ? cuts[k] : s.size(); data.append(s, prev, e - prev); prev = e;
+    try { r.done = c.frameResponse("GET", data, headersDone, headerScanPos, bodyStart, resp, framing, cs, forceEvict, 1 << 20); } catch (const HttpFramingError &) { r.threw = true; return r; } }
+  if (r.done) r.body = resp.body;
+  return r;
+}
 int main(int argc, char **argv) {
+  if (argc > 1) { auto in0 = replay_io::load(argv[1]);
+    if (in0.count("STREAM")) { auto b = replay_io::bytes(in0["STREAM"]); std::string s(b.begin(), b.end()); size_t cut = std::min<size_t>(s.size(), replay_io::u64(in0["CUT"]));
+      HttpClient c; FrRun one = fr_run(c, s, {}), two = fr_run(c, s, {cut});
+      printf("one read: %s body %zu bytes; cut at %zu: %s body %zu bytes\n", one.threw ? "rejected" : one.done ? "complete" : "need more", one.body.size(), cut, two.threw ? "rejected" : two.done ? "complete" : "need more", two.body.size());
+      if (one.done != two.done || one.threw != two.threw || one.body != two.body) replay_io::fail("R6/R7 framing depends on where the stream was cut (header-terminator scan state stale after a discarded interim response?)");
+      replay_io::ok("same framing in one read and cut at " + std::to_string(cut)); return 0; } }
   std::string hs = "HTTP/1.1 200 OK\r\nContent-Length: 5\r\ncontent-length: 11", method = "GET";
   if (argc > 1) { auto in = replay_io::load(argv[1]); if (in.count("IN")) { auto b = replay_io::bytes(in["IN"]); if (in.count("IN_N")) b.resize(std::min<size_t>(b.size(), replay_io::u64(in["IN_N"]))); hs.assign(b.begin(), b.end()); }
     if (in.count("METHOD")) { auto m = replay_io::bytes(in["METHOD"]); method.assign(m.begin(), m.end()); } }
